@@ -18,6 +18,29 @@ def clit(n, v):
     return "%d%s" % (v, SUF[n])
 
 
+def writings(pt, k, rng, all_=False):
+    """C spellings of a case constant whose conversion to the promoted controlling type pt is k (6.8.4.2p5): in-range, and, for
+    the 32-bit promoted types, constants of wider type that differ from k by a multiple of 2^32 -> [(text, 64-bit written value)]"""
+    out = [(clit(pt, k), k)]
+    if SIZE[pt] == 4:
+        for m in (1, -1, 2, 3, 0x7fffffff, -0x80000000, 0x40000000, 0xffffffff):
+            v = k + (m << 32)
+            if -(1 << 63) <= v < (1 << 63):
+                out.append((clit("llong", v), v))
+            if 0 <= v < (1 << 64):
+                out.append((clit("ullong", v), v))
+        if k < 0:
+            out.append((clit("uint", k + (1 << 32)), k + (1 << 32)))          # -1 written 0xffffffffU
+        if k >= (1 << 31):
+            out.append((clit("int", k - (1 << 32)), k - (1 << 32)))            # unsigned controlling type, negative constant
+    else:
+        if k < 0:
+            out.append((clit("ullong", k + (1 << 64)), k + (1 << 64)))
+        if k >= (1 << 63):
+            out.append((clit("llong", k - (1 << 64)), k - (1 << 64)))
+    return out if all_ else [rng.choice(out)]
+
+
 def gen_switch(rng, sid, big):
     t = rng.choice(list(CNAME))
     pt = PROMO[t]
@@ -52,7 +75,13 @@ def gen_switch(rng, sid, big):
         plo, phi = None, None    # plain char: decided per target
     else:
         plo, phi = (-(1 << (tb - 1)), (1 << (tb - 1)) - 1) if tsigned else (0, (1 << tb) - 1)
-    return {"id": sid, "type": t, "ptype": pt, "keys": keys, "hasdef": hasdef, "prange": (plo, phi), "shape": rng.choice(["plain", "loop", "nested"])}
+    sw = {"id": sid, "type": t, "ptype": pt, "keys": keys, "hasdef": hasdef, "prange": (plo, phi), "shape": rng.choice(["plain", "loop", "nested"])}
+    # how each constant is written: a third of the small switches spell constants out of the range of the promoted type
+    if not big and rng.random() < 0.35:
+        sw["written"] = [writings(pt, k, rng)[0] for k in keys]
+    else:
+        sw["written"] = [(clit(pt, k), k) for k in keys]
+    return sw
 
 
 def probes_for(sw, charsigned, rng, maxn):
@@ -81,7 +110,7 @@ def render(sw, probes):
         pre, post = "\tswitch (v == 0) { case 0: case 1:\n", "\t\tbreak;\n\t}\n"
     o += pre + "\tswitch (v) {\n"
     for i, k in enumerate(sw["keys"]):
-        o += "\tcase %s: r = %d; break;\n" % (clit(pt, k), i + 1)
+        o += "\tcase %s: r = %d; break;\n" % (sw["written"][i][0], i + 1)
         if i == len(sw["keys"]) // 2 and sw["hasdef"]:
             o += "\tdefault: r = 0; break;\n"
     o += "\t}\n" + post + "\treturn r;\n}\n"
@@ -157,7 +186,7 @@ def run_switches(ctx, objdir, runtime, charsigned_of):
             ctx.cov["ladders_not_read_back"] = ctx.cov.get("ladders_not_read_back", 0) + 1
             pt = sw["ptype"]
             recs.append({"id": sw["id"], "cls": "l" if SIZE[pt] == 8 else "w", "pbits": 8 * SIZE[pt], "psigned": bool(SIGNED[pt]),
-                         "keys": [w8(k) for k in sw["keys"]], "ladder": {"leaf": True}, "probes": [w8(p) for p in probes]})
+                         "keys": [w8(wv) for _, wv in sw["written"]], "ladder": {"leaf": True}, "probes": [w8(p) for p in probes]})
             meta[sw["id"]] = (sw, t, probes, src, out, None)
             continue
 
@@ -176,7 +205,7 @@ def run_switches(ctx, objdir, runtime, charsigned_of):
             return {"key": tr["key"], "eq": num.get(tr["eqlabel"], -1), "lt": strip(tr["lt"]), "gt": strip(tr["gt"])}
         cls = main_tree.get("cls", "w") if "leaf" not in main_tree else "w"
         pt = sw["ptype"]
-        recs.append({"id": sw["id"], "cls": cls, "pbits": 8 * SIZE[pt], "psigned": bool(SIGNED[pt]), "keys": [w8(k) for k in sw["keys"]],
+        recs.append({"id": sw["id"], "cls": cls, "pbits": 8 * SIZE[pt], "psigned": bool(SIGNED[pt]), "keys": [w8(wv) for _, wv in sw["written"]],
                      "ladder": strip(main_tree), "probes": [w8(p) for p in probes]})
         meta[sw["id"]] = (sw, t, probes, src, out, cls)
     if not recs:
@@ -236,3 +265,55 @@ def run_switches(ctx, objdir, runtime, charsigned_of):
     ctx.cov["max_ladder_depth"] = max(v["depth"] for v in verd.values())
     any_ = next(iter(meta.values()))
     ctx.sample({"switch": {"type": any_[0]["type"], "keys": any_[0]["keys"][:12], "shape": any_[0]["shape"], "target": any_[1], "probes": any_[2][:12]}})
+
+
+def run_duplicates(ctx, objdir):
+    """Case constants that are equal after conversion to the promoted controlling type (6.8.4.2p3) must be diagnosed, however they
+    are written.  Switch.tla decides which pairs collide (Distinct over the written values); cproc must reject exactly those."""
+    rng = random.Random(ctx.seed * 7919 + 16)
+    cases = []
+    for t in CNAME:
+        pt = PROMO[t]
+        bits = 8 * SIZE[pt]
+        lo, hi = (-(1 << (bits - 1)), (1 << (bits - 1)) - 1) if SIGNED[pt] else (0, (1 << bits) - 1)
+        for k in [v for v in (0, 1, 7, -1, -2, lo, hi, 2 ** 31 - 1, 2 ** 31, 2 ** 32 - 1, 2 ** 63) if lo <= v <= hi]:
+            ws = writings(pt, k, rng, all_=True)
+            pairs = [(a, b) for i, a in enumerate(ws) for b in ws[i + 1:]]
+            for a, b in (pairs if not ctx.quick else rng.sample(pairs, min(len(pairs), 6))):
+                other = (clit(pt, k + 1), k + 1) if k + 1 <= hi else (clit(pt, k - 1), k - 1)
+                for keys in ([a, b], [other, a, b], [a, other, b]):
+                    cases.append({"type": t, "ptype": pt, "keys": keys, "dup": True})
+            # near misses: differ by one after conversion -> valid
+            for a in rng.sample(ws, min(len(ws), 3)):
+                other = (clit(pt, k + 1), k + 1) if k + 1 <= hi else (clit(pt, k - 1), k - 1)
+                cases.append({"type": t, "ptype": pt, "keys": [a, other], "dup": False})
+    recs = []
+    for i, c in enumerate(cases):
+        c["id"] = i + 1
+        recs.append({"id": c["id"], "cls": "l" if SIZE[c["ptype"]] == 8 else "w", "pbits": 8 * SIZE[c["ptype"]], "psigned": bool(SIGNED[c["ptype"]]),
+                     "keys": [w8(wv) for _, wv in c["keys"]], "ladder": {"leaf": True}, "probes": [w8(0)]})
+    sfile = ctx.path("dupswitches.ndjson")
+    with open(sfile, "w") as f:
+        for r in recs:
+            f.write(json.dumps(r) + "\n")
+    r = ctx.tlc("Switch", "MC_Switch.cfg", workers=16, env={"SWITCHES": sfile}, timeout=1200, heap="4g")
+    if not r.ok:
+        raise vlib.MachineryError("Switch.tla failed on the duplicate family:\n" + r.out[-2000:])
+    verd = {json.loads(v)["id"]: json.loads(v) for v in r.vcases}
+
+    def comp(c):
+        src = "int f(%s v)\n{\n\tswitch (v) {\n%s\t}\n\treturn 0;\n}\n" % (CNAME[c["type"]], "".join("\tcase %s: return %d;\n" % (txt, j + 1) for j, (txt, _) in enumerate(c["keys"])))
+        rc, out, err = vlib.cproc(objdir, src, timeout=30)
+        return c, src, rc, err
+    for c, src, rc, err in vlib.pmap(comp, cases):
+        v = verd[c["id"]]
+        if v["distinct"] == c["dup"]:
+            raise vlib.MachineryError("Switch.tla and the generator disagree on whether %s collide for %s" % ([k[0] for k in c["keys"]], c["type"]))
+        ctx.count("dup|%s|%s" % (c["type"], "|".join(k[0] for k in c["keys"])), nontrivial=True)
+        ctx.validated(1)
+        if c["dup"] and not (rc == 1 and "error" in err):
+            ctx.violation("switch:dup-case-after-conversion-accepted", "case constants equal after conversion to %s are not diagnosed: rc=%s" % (c["ptype"], rc),
+                          {"type": c["type"], "keys": [k[0] for k in c["keys"]], "source": src})
+        if not c["dup"] and rc != 0:
+            ctx.violation("switch:rejected", "valid switch over distinct case constants rejected: rc=%s %s" % (rc, err[:300]), {"source": src})
+    ctx.cov["duplicate_family"] = len(cases)
